@@ -727,6 +727,11 @@ func (p *Parser) preNested(quote quoteState) (s saveState) {
 
 func (p *Parser) postNested(s saveState) {
 	p.quote, p.buriedHdocs = s.quote, s.buriedHdocs
+	if p.tok == _Newl && p.quote != hdocWord && len(p.heredocs) > p.buriedHdocs {
+		// The newline was lexed while the pending here-documents were buried,
+		// such as after "]]" or a "let" expression; read their bodies now.
+		p.doHeredocs()
+	}
 }
 
 func (p *Parser) unquotedWordBytes(w *Word) ([]byte, bool) {
@@ -769,6 +774,11 @@ func (p *Parser) doHeredocs() {
 		// Nothing do do; don't even issue a read.
 		return
 	}
+	// A here-document whose body has not ended always needs more input,
+	// also when the entry point reads the bodies after the last statement,
+	// where no statement or word is open any more.
+	p.openNodes++
+	defer func() { p.openNodes-- }()
 	p.rune() // consume '\n', since we know p.tok == _Newl
 	old := p.quote
 	p.heredocs = p.heredocs[:p.buriedHdocs]
